@@ -98,6 +98,9 @@ impl ParserOfModuleLocals {
 }
 
 impl Visit for ParserOfModuleLocals {
+    // declarations inside a block or a namespace are not in scope at module level
+    fn visit_block_stmt(&mut self, _n: &swc_ecma_ast::BlockStmt) {}
+    fn visit_ts_module_decl(&mut self, _n: &swc_ecma_ast::TsModuleDecl) {}
     fn visit_ts_type_alias_decl(&mut self, n: &TsTypeAliasDecl) {
         self.handle_type_alias(n);
     }
